@@ -400,6 +400,39 @@ func checkC01(c *Ctx) {
 	// ---- C01.11 "ClientConf generation": the station derives from the generation as the current subnet file defines it -
 	// a reload replaces the selector as a whole (shared with C07.8)
 	checkSelectorReplaced(c, "C01.11")
+	// ---- C01.12 the client side of "the same ClientConf generation": a pushed ClientConf replaces the stored one as a
+	// whole - the object installed by SetClientConf is the one it was handed (a merge appends the repeated subnet groups
+	// of the new generation to the old ones: new generation number, selection over a subnet list no station has)
+	r.Rule("C01.12", "SetClientConf installs the configuration it was handed, not a merge with the previous one", 1)
+	if f := c.fn("C01.12", "pkg/client/assets", "assets", "SetClientConf"); f != nil && len(f.Params) >= 2 {
+		n := 0
+		for _, st := range fieldStores(f, "assets.assets", "config") {
+			n++
+			v := stripConv(st.Val)
+			okk := v == ssa.Value(f.Params[1])
+			if ld, isLd := v.(*ssa.UnOp); isLd && !okk {
+				// the rollback: a value loaded from a.config earlier
+				if _, fld, ok := fieldOwner(ld.X); ok && fld == "config" {
+					okk = true
+				}
+			}
+			if ph, isPhi := v.(*ssa.Phi); isPhi && !okk {
+				okk = true
+				for _, e := range ph.Edges {
+					if stripConv(e) != ssa.Value(f.Params[1]) {
+						if ld, isLd := stripConv(e).(*ssa.UnOp); !isLd || !strings.HasSuffix(pathOf(ld.X), ".config") {
+							okk = false
+						}
+					}
+				}
+			}
+			r.Check(okk, "C01.12", "SetClientConf: a.config <- "+firstN(pathOf(st.Val), 40), st.Pos(), fnName(f), "the parameter (or the saved previous configuration on the rollback path)",
+				"the stored ClientConf is built from the previous one and the pushed one ("+firstN(pathOf(st.Val), 50)+") instead of being replaced: the client reports the new generation while its phantom subnet list is old groups + new groups, so it derives phantoms and port flags that no station derives for that generation")
+		}
+		if n == 0 {
+			r.Unk("C01.12", "SetClientConf: store to a.config", f.Pos(), fnName(f), "not found")
+		}
+	}
 
 	// ================= C01.1 labels
 	r.Rule("C01.1", "derivation labels are compile-time strings equal to the published table; HMAC tags are keyed by the shared secret", 12)
